@@ -240,5 +240,79 @@ theorem lane_count_iff_ib (fs : LaneFrames) :
 example : (decodeLane (encodeLane [.chip 3 0x55 4 [⟨7, [.short 0x5A 0xA0, .long 0x3F 0xB0 0x7F, .short 0x40 0xE0]⟩],
     .busyOn, .idle 2, .empty 4 0x55])).chips = [(3, 0x55), (4, 0x55)] := by decide
 
+/-! ### the frame verdict in closed form -/
+
+/-- verdict of every lane of a frame, with its lane number -/
+def verdicts (cfg : AlpideCfg) (barrel : Barrel) (fs : LaneFrames) : List (Nat × LaneVerdict) :=
+  fs.map (fun f => (laneNumber barrel f.1, laneVerdict cfg barrel (laneNumber barrel f.1) (decodeLane f.2)))
+
+def isErr : LaneVerdict → Bool | .error _ => true | _ => false
+def fatalLanesOf (vs : List (Nat × LaneVerdict)) : List Nat :=
+  vs.filterMap (fun v => match v.2 with | .fatal => some v.1 | _ => none)
+def validBcsOf (vs : List (Nat × LaneVerdict)) : List (Nat × Nat) :=
+  vs.filterMap (fun v => match v.2 with | .valid bc => some (v.1, bc) | _ => none)
+
+theorem errCount_cons (v : Nat × LaneVerdict) (vs : List (Nat × LaneVerdict)) :
+    ((v :: vs).filter (fun v => isErr v.2)).length = (if isErr v.2 then 1 else 0) + (vs.filter (fun v => isErr v.2)).length := by
+  simp only [List.filter_cons]
+  split <;> simp <;> omega
+theorem validBcsOf_cons (v : Nat × LaneVerdict) (vs : List (Nat × LaneVerdict)) :
+    validBcsOf (v :: vs) = (match v.2 with | .valid bc => [(v.1, bc)] | _ => []) ++ validBcsOf vs := by
+  obtain ⟨n, vd⟩ := v
+  cases vd <;> simp [validBcsOf, List.filterMap_cons]
+theorem fatalLanesOf_cons (v : Nat × LaneVerdict) (vs : List (Nat × LaneVerdict)) :
+    fatalLanesOf (v :: vs) = (match v.2 with | .fatal => [v.1] | _ => []) ++ fatalLanesOf vs := by
+  obtain ⟨n, vd⟩ := v
+  cases vd <;> simp [fatalLanesOf, List.filterMap_cons]
+theorem verdicts_cons (cfg : AlpideCfg) (barrel : Barrel) (id : Nat) (data : Bytes) (fs : LaneFrames) :
+    verdicts cfg barrel ((id, data) :: fs) =
+      (laneNumber barrel id, laneVerdict cfg barrel (laneNumber barrel id) (decodeLane data)) :: verdicts cfg barrel fs := rfl
+
+theorem go_spec (cfg : AlpideCfg) (barrel : Barrel) (fs : LaneFrames) :
+    ∀ (errIds : List Nat) (nErr : Nat) (codes : List String) (st : AlpideStats) (fatal : List Nat) (valid : List (Nat × Nat)),
+      (checkAlpideFrame.go cfg barrel fs errIds nErr codes st fatal valid).laneErrorCount =
+        nErr + ((verdicts cfg barrel fs).filter (fun v => isErr v.2)).length +
+          (if (dedupNat ((valid ++ validBcsOf (verdicts cfg barrel fs)).map (·.2))).length > 1 then 1 else 0) ∧
+      (checkAlpideFrame.go cfg barrel fs errIds nErr codes st fatal valid).newFatal =
+        fatal ++ fatalLanesOf (verdicts cfg barrel fs) := by
+  induction fs with
+  | nil =>
+    intro errIds nErr codes st fatal valid
+    have hv : verdicts cfg barrel [] = [] := rfl
+    have h1 : validBcsOf [] = [] := rfl
+    have h2 : fatalLanesOf [] = [] := rfl
+    simp only [checkAlpideFrame.go, hv, h1, h2, List.filter_nil, List.length_nil, Nat.add_zero, List.append_nil]
+    split <;> simp
+  | cons f fs ih =>
+    intro errIds nErr codes st fatal valid
+    obtain ⟨id, data⟩ := f
+    rw [verdicts_cons, errCount_cons, validBcsOf_cons, fatalLanesOf_cons]
+    simp only [checkAlpideFrame.go]
+    cases hv : laneVerdict cfg barrel (laneNumber barrel id) (decodeLane data) with
+    | error cs =>
+      obtain ⟨h1, h2⟩ := ih (errIds ++ [laneNumber barrel id]) (nErr + 1) (codes ++ cs) (st.add (decodeLane data).stats) fatal valid
+      simp only [h1, h2, isErr, ↓reduceIte, List.nil_append]
+      exact ⟨by omega, trivial⟩
+    | fatal =>
+      obtain ⟨h1, h2⟩ := ih errIds nErr codes (st.add (decodeLane data).stats) (fatal ++ [laneNumber barrel id]) valid
+      simp only [h1, h2, isErr, Bool.false_eq_true, ↓reduceIte, List.nil_append, Nat.zero_add, List.append_assoc, List.singleton_append]
+      exact ⟨trivial, trivial⟩
+    | valid bc =>
+      obtain ⟨h1, h2⟩ := ih errIds nErr codes (st.add (decodeLane data).stats) fatal (valid ++ [(laneNumber barrel id, bc)])
+      simp only [h1, h2, isErr, Bool.false_eq_true, ↓reduceIte, List.nil_append, Nat.zero_add, List.append_assoc, List.singleton_append]
+      exact ⟨trivial, trivial⟩
+
+/-- **C13 (frame verdict, exact)**: the number of lane-error messages of a frame is the number of
+    lanes with an error verdict, plus one iff the error-free lanes do not all carry the same bunch
+    counter; the lanes newly marked fatal are exactly the lanes with a fatal verdict — whatever
+    the pixel-hit content (`hits_irrelevant`) -/
+theorem frame_verdict_exact (cfg : AlpideCfg) (barrel : Barrel) (fs : LaneFrames) :
+    (checkAlpideFrame cfg barrel fs).laneErrorCount =
+      ((verdicts cfg barrel fs).filter (fun v => isErr v.2)).length +
+        (if (dedupNat ((validBcsOf (verdicts cfg barrel fs)).map (·.2))).length > 1 then 1 else 0) ∧
+    (checkAlpideFrame cfg barrel fs).newFatal = fatalLanesOf (verdicts cfg barrel fs) := by
+  have := go_spec cfg barrel fs [] 0 [] {} [] []
+  simpa [checkAlpideFrame] using this
+
 end C13
 end FastPasta
